@@ -682,6 +682,12 @@ where
         seq.next_element_seed(DeserializeEntities {
             count: self.entity_count,
             out: self.entities,
+        })?
+        .ok_or_else(|| {
+            de::Error::invalid_value(
+                Unexpected::Other("end of components"),
+                &"a list of entity IDs",
+            )
         })?;
         self.ctx
             .deserialize_components(self.entity_count, seq, self.out)
